@@ -238,26 +238,35 @@ where
                 }
                 let key = new_key(sender, &target);
                 let _key = key.clone();
-                match client_server_cache.entry(key) {
-                    Entry::Vacant(entry) => {
-                        debug!("[udp] new binding; key={:?}", &_key);
-                        let out = new_out(&target, &context).await?;
-                        let (sink, relay_task) = new_binding(server_addr, client_local_tx.clone(), ((content, target), sender), _key, out, to_inbound_recv, to_outbound_send).await?;
-                        entry.insert(Binding {sink, relay_task});
-                    }
-                    Entry::Occupied(entry) => {
-                        // client->server|outbound
-                        let value = entry.into_mut();
-                        if value.relay_task.is_finished() {
-                            debug!("[udp] retry binding; key={:?}", &_key);
+                // one datagram that cannot be forwarded (server unreachable, socket error, datagram too large) is dropped;
+                // it must not end the relay for every other local application
+                let forwarded: Result<()> = async {
+                    match client_server_cache.entry(key) {
+                        Entry::Vacant(entry) => {
+                            debug!("[udp] new binding; key={:?}", &_key);
                             let out = new_out(&target, &context).await?;
                             let (sink, relay_task) = new_binding(server_addr, client_local_tx.clone(), ((content, target), sender), _key, out, to_inbound_recv, to_outbound_send).await?;
-                            value.sink = sink;
-                            value.relay_task = relay_task;
-                        } else {
-                            value.sink.send(to_outbound_send((content, target), server_addr)).await?;
+                            entry.insert(Binding {sink, relay_task});
+                        }
+                        Entry::Occupied(entry) => {
+                            // client->server|outbound
+                            let value = entry.into_mut();
+                            if value.relay_task.is_finished() {
+                                debug!("[udp] retry binding; key={:?}", &_key);
+                                let out = new_out(&target, &context).await?;
+                                let (sink, relay_task) = new_binding(server_addr, client_local_tx.clone(), ((content, target), sender), _key, out, to_inbound_recv, to_outbound_send).await?;
+                                value.sink = sink;
+                                value.relay_task = relay_task;
+                            } else {
+                                value.sink.send(to_outbound_send((content, target), server_addr)).await?;
+                            }
                         }
                     }
+                    Ok(())
+                }
+                .await;
+                if let Err(e) = forwarded {
+                    error!("[udp] drop datagram that could not be forwarded; sender={}, error={}", sender, e);
                 }
             }
             else => break,
@@ -308,7 +317,10 @@ where
         debug!("[udp] server-client relay task done");
     });
     // client->server|outbound
-    client_server.send(to_outbound_send((content, target), server_addr)).await?;
+    if let Err(e) = client_server.send(to_outbound_send((content, target), server_addr)).await {
+        relay_task.abort();
+        return Err(e);
+    }
     Ok((client_server, relay_task))
 }
 
